@@ -2,18 +2,18 @@
 PROPS["C18"] = dict(
     props_file="Properties/C18.v",
     harnesses=[
-        dict(cmd="creds", mod="root", model="Model.Creds", quick=1200, thorough=100000, shard=300,
+        dict(cmd="creds", mod="root", model="Model.Creds", quick=1000, thorough=100000, shard=250,
              require=["op.pull", "op.remove", "op.query", "op.multi", "op.connect", "op.len", "auth.nil",
                       "auth.sa.empty", "auth.sa.url", "auth.sa.bare", "auth.sa.bad",
                       "auth.form.userpass", "auth.form.token", "auth.form.base64",
                       "pull.invalid-ref", "pull.backend-fails", "query.docker-alias", "case.starts-unconnected",
                       "result.offered", "result.none", "result.error", "result.rejected"]),
-        dict(cmd="credsfetch", mod="root", model="Model.Headers", quick=400, thorough=20000, shard=100,
+        dict(cmd="credsfetch", mod="root", model="Model.Headers", quick=320, thorough=20000, shard=80,
              require=["mirror.hdr0", "mirror.hdr1", "mirror.hdr2", "mirror.hdr3", "mirror.invalid", "mirrors.0", "mirrors.2",
                       "resolve.ok", "resolve.failed", "resolve.ok.mirror", "resolve.ok.redirected",
                       "spawn.fetch", "spawn.check", "answer.403", "answer.400", "answer.401", "answer.3xx", "answer.2xx",
                       "req.with-header", "req.to-redirect-location", "final.target-changed", "final.single-range",
-                      "done.ok", "done.failed"]),
+                      "done.ok", "done.failed", "auth.challenged", "auth.credential-sent", "auth.credential-withheld"]),
     ],
     rule="creds: random histories (3..24 ops) of CRI connect / PullImage (image strings incl. docker.io short forms, digests, unparsable; "
          "auth = user+password | identity token | base64 auth (valid, NUL-padded, no colon, invalid) | several | none; server address empty | URL | "
@@ -22,7 +22,9 @@ PROPS["C18"] = dict(
          "credsfetch: 0..2 mirrors with string/list/empty/no header tables (+ invalid hosts), scripted answers for resolution and size probe, then up to 5 "
          "concurrent fetch/check calls run under a deterministic scheduler (held at the fetcher's scheduling point and at every request) with answers "
          "200/206/204/3xx(+Location: CDN, same-host URL, another mirror's blob URL, none)/400/401/403/404/transport error; non-trivial = a redirect location "
-         "was contacted, a 403 refresh happened and a configured header was sent; distinct = distinct Coq case terms",
+         "was contacted, a 403 refresh happened and a configured header was sent; distinct = distinct Coq case terms. "
+         "Epilogue per case (oracle only): the image was pulled through the real CRI keychain (server address none / mirror / origin / CDN), the keychain feeds the "
+         "real docker authorizer, the current target and then the registry host answer 401 + Basic challenge: an Authorization header may only reach a host the pull's server address names",
     assumptions=[
         "all keychain methods are atomic under configMu (a schedule is an op list); the connection goroutine of NewCRIKeychain is the Connect op",
         "reference normalisation (distribution/reference.ParseDockerRef + containerd reference.Parse/Spec.String) is a contract: the model identifies a "
